@@ -475,6 +475,63 @@ def r07d(ctx):
         ctx.ob('R07d', f'{name} BatchNorm folding: weight', okw,
                'w * (gamma * rsqrt(var + eps)) broadcast on the output-channel axis' if okw else
                f'folded weight is {short(wt, 200)}', where(fn))
+    # every configuration of optional terms: a layer without bias folds a zero bias, a
+    # BatchNorm without affine terms has gamma = 1 and beta = 0
+    def neutral(t):
+        if isinstance(t, tuple):
+            t = tuple(neutral(x) for x in t)
+            c = callee(t) if t and t[0] == 'call' else None
+            if c == 'torch.zeros_like':
+                return ('const', 0)
+            if c == 'torch.ones_like':
+                return ('const', 1)
+            if c in ('torch.nn.Parameter', 'torch.nn.parameter.Parameter') and t[2]:
+                return t[2][0]
+        return t
+    for name, (fn, lin, bn, _got) in forms.items():
+        rv, rm = ('attr', bn, 'running_var'), ('attr', bn, 'running_mean')
+        g, b, cb = ('attr', bn, 'weight'), ('attr', bn, 'bias'), ('attr', lin, 'bias')
+        rs = ('call', ('global', 'torch.rsqrt'), (('bin', '+', rv, ('attr', bn, 'eps')),), ())
+        seen_worlds = set()
+        for p in returning(paths(repo, fn)):
+            if any(a == ('param', 'fold') and v is False for a, v in p.assumptions):
+                continue
+            # (branch decisions are read from the events: a later store to lin.bias drops the
+            # assumption about it from the path state)
+            decided = [(e.data[0], e.data[1]) for e in p.events if e.kind == 'assume']
+            none = {x: any(a == ('isnone', x) and v for a, v in decided) for x in (cb, g, b)}
+            stored = None
+            for e in p.events:
+                if e.kind == 'call':
+                    mc = method_call(e.data[0])
+                    if mc and mc[1] == 'copy_' and mc[0] == cb:
+                        stored = mc[2][0]
+                if e.kind == 'setattr' and e.data[0] == lin and e.data[1] == 'bias':
+                    stored = e.data[2]
+            if stored is None:
+                continue
+            world = (none[cb], none[g], none[b])
+            if world in seen_worlds or world == (False, False, False):
+                continue
+            seen_worlds.add(world)
+            sub = {}
+            if none[cb]:
+                sub[cb] = ('const', 0)
+            if none[g]:
+                sub[g] = ('const', 1)
+            if none[b]:
+                sub[b] = ('const', 0)
+            want = ('bin', '+', ('bin', '*', ('bin', '*', ('bin', '-', cb, rm), rs), g), b)
+            got_b = canon_torch(neutral(stored))
+            ok = poly.equal(got_b, want, sub)
+            lbl = ', '.join(n for n, k in (('no layer bias', cb), ('no BN weight', g),
+                                           ('no BN bias', b)) if none[k])
+            ctx.ob('R07d', f'{name} BatchNorm folding: bias [{lbl}]', ok,
+                   'the folding formula with the neutral value of the missing term' if ok else
+                   f'with {lbl} the folded bias is {short(got_b, 160)}, expected (b - mean) * '
+                   f'rsqrt(var + eps) * gamma + beta with the missing term neutral (b = 0, '
+                   f'gamma = 1, beta = 0): the imported layer does not compute layer + BatchNorm',
+                   where(fn))
     a, b = forms['PIT'], forms['MPS']
 
     def ren(t, lin, bn):
